@@ -161,6 +161,96 @@ func c06(args []string) int {
 	}
 	sh.Close()
 
+	// ---------------- part 1b: configured lists WITH DUPLICATE NAMES (the entries live in a map: last one wins) ----------------
+	d2 := run.NewShard("From MV Require Import Gen.SrcTokens Model.WCluster.\nFrom Coq Require Import List ZArith String.\nImport ListNotations.\nOpen Scope Z_scope.\n",
+		"wc_case2", "wc_mismatches2 wc_cmp")
+	type cfgEntry struct {
+		Name string `json:"name"`
+		W    uint32 `json:"w"`
+	}
+	dupCfgs := [][]cfgEntry{{{"a", 10}, {"b", 20}, {"a", 30}}, {{"a", 30}, {"b", 20}, {"a", 10}}, {{"a", 1}, {"a", 1}}, {{"a", 0}, {"b", 2}, {"a", 3}}, {{"x", 5}, {"y", 5}, {"x", 0}}}
+	for i := 0; i < run.N(15, 150); i++ {
+		n := 2 + r.Intn(4)
+		c := make([]cfgEntry, n)
+		for j := range c {
+			c[j] = cfgEntry{Name: fmt.Sprintf("c%d", r.Intn(3)), W: uint32(r.Intn(12))}
+		}
+		dupCfgs = append(dupCfgs, c)
+	}
+	for _, cfg := range dupCfgs {
+		var wcs []v2.WeightedCluster
+		stored := map[string]uint32{}
+		var order []string
+		for _, e := range cfg {
+			wcs = append(wcs, v2.WeightedCluster{Cluster: v2.ClusterWeight{ClusterWeightConfig: v2.ClusterWeightConfig{Name: e.Name, Weight: e.W}}})
+			if _, ok := stored[e.Name]; !ok {
+				order = append(order, e.Name)
+			}
+			stored[e.Name] = e.W
+		}
+		sum := 0
+		var cs []wcl
+		for _, n := range order {
+			sum += int(stored[n])
+			cs = append(cs, wcl{Name: n, W: stored[n]})
+		}
+		if sum == 0 {
+			continue
+		}
+		rt := &v2.Router{}
+		rt.Route.ClusterName = "dflt"
+		rt.Route.WeightedClusters = wcs
+		rule, err := router.NewRouteRuleImplBase(nil, rt)
+		if err != nil {
+			continue
+		}
+		src := &scriptSrc{}
+		rule.VerifSetRand(rand.New(src))
+		bound := int(rule.VerifTotalWeight())
+		rep := map[string]interface{}{"part": "clusters-duplicate-names", "configured": cfg, "stored_last_wins": cs, "draw_bound": bound, "stored_sum": sum}
+		run.Count(fmt.Sprintf("dup|%v", cfg), true, "clusters-duplicate-names")
+		if bound != sum {
+			dir := "exceeds"
+			if bound < sum {
+				dir = "is-below"
+			}
+			run.Fail("wcluster:duplicate-names:draw-bound-"+dir+"-stored-weight-sum", fmt.Sprintf("configured %v: the map stores %v (sum %d) but the draw is taken from [0,%d): probabilities are not weight/total", cfg, cs, sum, bound), rep)
+		}
+		var coqcfg []string
+		for _, e := range cfg {
+			coqcfg = append(coqcfg, fmt.Sprintf("(%s, %s)", CoqString(e.Name), CoqZ(int64(e.W))))
+		}
+		seen := map[string]bool{}
+		for v := 0; v < bound; v++ {
+			for k := 0; k < reps; k++ {
+				src.next = int64(v)
+				got := rule.ClusterName(ctx)
+				idx := -1
+				for i := range cs {
+					if cs[i].Name == got {
+						idx = i
+					}
+				}
+				if v < sum {
+					if idx < 0 {
+						run.Fail("wcluster:default-returned-in-range", fmt.Sprintf("draw %d < stored sum %d returned %q (configured %v)", v, sum, got, cfg), rep)
+					} else if cs[idx].W == 0 {
+						run.Fail("wcluster:zero-weight-selected", fmt.Sprintf("zero-weight cluster %s selected on draw %d (configured %v)", got, v, cfg), rep)
+					} else if !feasibleExact(cs, idx, v) {
+						run.Fail("wcluster:draw-outside-exact-interval", fmt.Sprintf("cluster %s selected on draw %d, impossible for any storage order (configured %v, stored %v)", got, v, cfg, cs), rep)
+					}
+				}
+				key := fmt.Sprintf("%d|%s", v, got)
+				if seen[key] {
+					continue
+				}
+				seen[key] = true
+				d2.Add(fmt.Sprintf("(%s, %s, %s, %s, %s)", CoqList(coqcfg), CoqZ(int64(bound)), CoqZ(int64(v)), CoqString("dflt"), CoqString(got)), rep)
+			}
+		}
+	}
+	d2.Close()
+
 	// ---------------- part 2: EDF scheduler ----------------
 	esh := run.NewShard("From MV Require Import Model.Edf.\nFrom Coq Require Import List ZArith.\nImport ListNotations.\nOpen Scope Z_scope.\n",
 		"edf_case", "edf_mismatches")
